@@ -19,6 +19,7 @@ mod cuts;
 mod history;
 mod hooks;
 mod model;
+mod net;
 mod objsets;
 mod ops;
 mod oracles;
